@@ -11,10 +11,10 @@ open Ptk.Py
 
 /-- calls on the output object -/
 inductive Ev
-  | cell (t : Text)        -- `write(char.char)` in `output_char`
+  | cell (t : CText)       -- `write(char.char)` in `output_char`
   | cr                     -- `write("\r")`
   | nl (k : Nat)           -- `write("\r\n" * k)`
-  | raw (t : Text)         -- `write_raw(zero_width_escapes_row[c])`
+  | raw (t : CText)        -- `write_raw(zero_width_escapes_row[c])`
   | hideCursor | showCursor | resetAttrs
   | setAttrs (a : Nat)
   | fwd (n : Nat) | back (n : Nat) | up (n : Nat)
@@ -73,7 +73,7 @@ def rowKeys (b : Buf) (y : Int) : List Int := (b.filter fun pc => pc.1.1 = y).ma
 def maxColumnIndex (hasStyle : Text → Bool) (b : Buf) (d : Cell) (y : Int) : Int :=
   (rowKeys b y).foldl (fun acc x =>
     let c := bufGet b d (y, x)
-    if c.char ≠ [' '] || hasStyle c.style then (if acc.isNone then some x else some (max (acc.getD 0) x)) else acc)
+    if c.char ≠ [32] || hasStyle c.style then (if acc.isNone then some x else some (max (acc.getD 0) x)) else acc)
     none |>.getD 0
 
 structure DiffCfg where
@@ -151,43 +151,43 @@ def diff (cfg : DiffCfg) (d0 : Cell) (scr : Screen) (prev : Option Screen) (x0 y
 
 /-- the strings the emitter methods write (generated from a real `Vt100_Output`) -/
 structure Emit where
-  hide : Text
-  show_ : Text
-  reset : Text
-  eraseDown : Text
-  eraseEol : Text
-  disableWrap : Text
-  enableWrap : Text
-  up1 : Text
-  fwd1 : Text
-  back1 : Text
-  upPre : Text
-  upSuf : Text
-  fwdPre : Text
-  fwdSuf : Text
-  backPre : Text
-  backSuf : Text
+  hide : CText
+  show_ : CText
+  reset : CText
+  eraseDown : CText
+  eraseEol : CText
+  disableWrap : CText
+  enableWrap : CText
+  up1 : CText
+  fwd1 : CText
+  back1 : CText
+  upPre : CText
+  upSuf : CText
+  fwdPre : CText
+  fwdSuf : CText
+  backPre : CText
+  backSuf : CText
 
 /-- `"%i" % n` for a non-negative int -/
-def decimal (n : Nat) : Text := Nat.toDigits 10 n
+def decimal (n : Nat) : CText := (Nat.toDigits 10 n).map Char.toNat
 
 /-- `cursor_up/forward/backward(amount)`: 0 → nothing, 1 → short form, else prefix+amount+suffix -/
-def amountSeq (one pre suf : Text) : Nat → Text
+def amountSeq (one pre suf : CText) : Nat → CText
   | 0 => []
   | 1 => one
   | n => pre ++ decimal n ++ suf
 
-def repeatCrLf : Nat → Text
+def repeatCrLf : Nat → CText
   | 0 => []
-  | k + 1 => '\r' :: '\n' :: repeatCrLf k
+  | k + 1 => CR :: LF :: repeatCrLf k
 
 /-- `Vt100_Output._cursor_visible`: `none` = unknown -/
 abbrev VtSt := Option Bool
 
 /-- one call on a `Vt100_Output`: what is appended to the buffer (tagged) and the new state -/
-def vtEv (E : Emit) (sgr : Nat → Text) (v : VtSt) : Ev → VtSt × Seg
+def vtEv (E : Emit) (sgr : Nat → CText) (v : VtSt) : Ev → VtSt × Seg
   | .cell t => (v, (.content, safeWrite t))
-  | .cr => (v, (.genw, safeWrite ['\r']))
+  | .cr => (v, (.genw, safeWrite [CR]))
   | .nl k => (v, (.genw, safeWrite (repeatCrLf k)))
   | .raw t => (v, (.zwe, t))
   | .hideCursor => if v = some false then (v, (.gen, [])) else (some false, (.gen, E.hide))
@@ -202,7 +202,7 @@ def vtEv (E : Emit) (sgr : Nat → Text) (v : VtSt) : Ev → VtSt × Seg
   | .disableWrap => (v, (.gen, E.disableWrap))
   | .enableWrap => (v, (.gen, E.enableWrap))
 
-def vtSegs (E : Emit) (sgr : Nat → Text) : VtSt → List Ev → VtSt × List Seg
+def vtSegs (E : Emit) (sgr : Nat → CText) : VtSt → List Ev → VtSt × List Seg
   | v, [] => (v, [])
   | v, e :: es =>
     let (v1, sg) := vtEv E sgr v e
@@ -210,7 +210,7 @@ def vtSegs (E : Emit) (sgr : Nat → Text) : VtSt → List Ev → VtSt × List S
     (v2, sg :: rest)
 
 /-- the text a `Vt100_Output` sends to the terminal for one `_output_screen_diff` -/
-def renderText (E : Emit) (sgr : Nat → Text) (v : VtSt) (s : DS) : Text :=
+def renderText (E : Emit) (sgr : Nat → CText) (v : VtSt) (s : DS) : CText :=
   segsText (vtSegs E sgr v s.evs.reverse).2
 
 end Ptk.C10
